@@ -18,7 +18,7 @@ EXPLANATION = (
     "annotations on both sides; (T3) enabling the builder only adds items: no template has an else-branch on the setting; "
     "(W4) every settings setter (`with_*`) and the conversion cache's insert store what they are given on every path; the only "
     "condition allowed is an exact-duplicate test (`!list.contains(&item)` on the list itself), never a test on part of the value; (W5) once a type space exists its settings are only read: every write to a field of the "
-    "settings is inside one of the settings' own setters."
+    "settings is inside one of the settings' own setters; (W6) no two setters insert into the same keyed field of the settings."
 )
 ASSUMPTIONS = ["conversions of synthesised sub-schemas (merged schemas) are not decided"]
 
@@ -44,6 +44,17 @@ def run(facts, rep, tier):
         rep.ob("C14.W5", "settings-write:" + key, ok, "written by a setter of the settings" if ok else
                "%s modifies settings.%s (%s) while converting: a setting is honoured for the first use only / differently from one definition to the next" % (fnq, a["field"], "/".join(str(x) for x in a["how"])), a["node"].get("sp"))
     rep.floor("C14.W5", "writes to the settings (all in setters)", nwr, 8)
+    # W6: two different settings do not share one keyed slot: a keyed insert by one setter must not be able to replace
+    # what another setter stored (a replacement registered for a type is lost when a patch for it is registered later)
+    by_field = {}
+    for a in acc:
+        if is_write(a["how"]) and "TypeSpaceSettings::with_" in a["fn"] and a["how"][0] == "call" and a["how"][1] in ("insert", "entry"):
+            by_field.setdefault(a["field"], set()).add(a["fn"].split("::")[-1])
+    for fld, setters in sorted(by_field.items()):
+        ok6 = len(setters) == 1
+        rep.ob("C14.W6", "one-setter-per-keyed-field:%s" % fld, ok6, "`%s` is keyed storage of %s only" % (fld, sorted(setters)[0]) if ok6 else
+               "the setters %s all insert into `settings.%s` under the caller's key: registering one kind of override for a type silently replaces another kind registered earlier for the same type" % (sorted(setters), fld))
+    rep.floor("C14.W6", "keyed settings fields", len(by_field), 3)
 
     # ------------------------------------------------------------ W1 replacement
     reps = []
